@@ -42,6 +42,34 @@ def run_vectors(c, vecs, tag, mod):
     return mism, stats
 
 
+def validate_seqs(c, lines, label, max_fail=15):
+    """One line per sequence, one specification step per call plus one per line: a rejected sequence is located from the
+    depth reached, recorded and set aside. Returns (accepted lines, [(event, reason, call index 1-based)])."""
+    failures = []
+    cur = list(lines)
+    while cur:
+        path = os.path.join(c.scratch, "tv-%s.ndjson" % label)
+        with open(path, "w") as f:
+            f.write("\n".join(cur) + "\n")
+        ok, depth, r = tv.validate_file(c, "SnapshotTrace", "SnapshotTrace.cfg", path, label)
+        if ok:
+            break
+        done, idx, at = depth - 1, len(cur) - 1, 1          # steps taken; the next one is the unexplained one
+        acc = 0
+        for i, ln in enumerate(cur):
+            n = len(json.loads(ln)["calls"]) + 1
+            if done < acc + n:
+                idx, at = i, done - acc + 1
+                break
+            acc += n
+        reason = "no specification action explains this step" if r.violated in (None, "postcondition") else "invariant %s violated" % r.violated
+        failures.append((json.loads(cur[idx]), reason, at))
+        del cur[idx]
+        if len(failures) >= max_fail:
+            break
+    return len(cur), failures
+
+
 def key_of(m):
     calls = m["vec"]["calls"]
     path = m["why"].split(":")[0]
@@ -75,16 +103,22 @@ def run(c):
     tf = os.path.join(c.scratch, "snap-trace.ndjson")
     c.vh(["snapshot-trace", tf, count, maxlen], timeout=1800)
     lines = [l.rstrip("\n") for l in open(tf)]
-    n_ok, failures = tv.validate_dropping(c, "SnapshotTrace", "SnapshotTrace.cfg", lines, "snap")
+    n_ok, failures = validate_seqs(c, lines, "snap")
     c.cov["traces_validated_against_impl"] = n_ok
-    for ev, reason in failures:
-        c.report("snapshot-trace:%s" % (ev.get("err") or "compiled-state-differs")[:60], "long random sequence (%d calls): %s %s" % (len(ev["calls"]), reason, ev.get("err", "")),
-                 {"calls": ev["calls"]})
+    for ev, reason, at in failures:
+        what = "after call %d (%s)" % (at, ev["calls"][at - 1]["k"]) if at <= len(ev["calls"]) else "at the end (complete snapshot, in memory or read back)"
+        c.report("snapshot-trace:%s" % (ev.get("err") or "compiled-state-differs")[:60],
+                 "long random sequence (%d calls): %s %s: the snapshot the code compiled %s is not the one the specification prescribes" % (len(ev["calls"]), reason, ev.get("err", ""), what),
+                 {"calls": ev["calls"][:at]})
     e = json.loads(lines[0])
     e["mem"]["labels"] = e["mem"]["labels"] + [9]
-    n2, f2 = tv.validate_dropping(c, "SnapshotTrace", "SnapshotTrace.cfg", [json.dumps(e)], "snap-selftest", max_fail=1)
-    c.cov["selftest_rejected"] = len(f2) == 1
-    if len(f2) != 1:
+    n2, f2 = validate_seqs(c, [json.dumps(e)], "snap-selftest", max_fail=1)
+    e = json.loads(lines[0])
+    mid = len(e["steps"]) // 2
+    e["steps"][mid]["labels"] = list(reversed(e["steps"][mid]["labels"])) if len(e["steps"][mid]["labels"]) > 1 else e["steps"][mid]["labels"] + [9]
+    n3, f3 = validate_seqs(c, [json.dumps(e)], "snap-selftest2", max_fail=1)
+    c.cov["selftest_rejected"] = len(f2) == 1 and len(f3) == 1
+    if len(f2) != 1 or len(f3) != 1 or f3[0][2] != mid + 1:
         raise Broken("snapshot trace self-test failed")
     c.assumptions += ["texts are identified by the position of the operation that introduced them; labels by small integers",
                       "the cache path is skipped for sequences the cache API cannot express (no-op operations, edits it refuses)"]
